@@ -308,7 +308,8 @@ def run(rep: Report, repo: Repo, tier: str) -> None:
     events, lex_attrs, par_attrs = listener_attachments(repo, doc_cls)
 
     # ---- R3: every attached listener raises on all paths of syntaxError
-    rep.rule("C06-R3", "every listener class attached to a recognizer raises on every path of syntaxError")
+    with rep.isolated():
+        rep.rule("C06-R3", "every listener class attached to a recognizer raises on every path of syntaxError")
     attached = sorted({l for _r, op, l, _s, _m in events if op == "addErrorListener" and l})
     listener_info: Dict[str, Dict] = {}
     for lc in attached:
@@ -329,7 +330,8 @@ def run(rep: Report, repo: Repo, tier: str) -> None:
     rep.floor("C06-R3", 1, "attached listener classes")
 
     # ---- R1: the lexer has a raising, non-RecognitionException listener
-    rep.rule("C06-R1", "the lexer feeding the token stream has a listener that raises a non-RecognitionException on all paths")
+    with rep.isolated():
+        rep.rule("C06-R1", "the lexer feeding the token stream has a listener that raises a non-RecognitionException on all paths")
     lex_l = effective_listeners(events, "lexer")
     where = f"{dmod}:{doc_cls}.__init__"
     good = False
@@ -352,8 +354,9 @@ def run(rep: Report, repo: Repo, tier: str) -> None:
     rep.floor("C06-R1", 1, "lexer construction site")
 
     # ---- R8: no token is pulled before the listeners are in place
-    rep.rule("C06-R8", "no token is lexed / no rule is parsed before the raising listeners are attached (token stream look-ahead, "
-                       "fill, nextToken, parser rule calls come after addErrorListener)")
+    with rep.isolated():
+        rep.rule("C06-R8", "no token is lexed / no rule is parsed before the raising listeners are attached (token stream look-ahead, "
+                           "fill, nextToken, parser rule calls come after addErrorListener)")
     rule_names_all, _sw = parser_rule_handlers(repo)
     PULL = {"LA", "LT", "fill", "consume", "getTokens", "nextToken", "getAllTokens", "get", "getText", "seek", "sync", "lazyInit",
             "setup", "getHiddenTokensToLeft", "getHiddenTokensToRight"} | set(rule_names_all)
@@ -390,8 +393,9 @@ def run(rep: Report, repo: Repo, tier: str) -> None:
     rep.floor("C06-R8", 1, "token-pulling calls")
 
     # ---- R2: parser errors escape nested rule handlers
-    rep.rule("C06-R2", "syntax errors raised inside nested rule methods cannot be swallowed: non-Recognition raise, "
-                       "error-count gate before the walk, or bail strategy")
+    with rep.isolated():
+        rep.rule("C06-R2", "syntax errors raised inside nested rule methods cannot be swallowed: non-Recognition raise, "
+                           "error-count gate before the walk, or bail strategy")
     rule_names, swallow = parser_rule_handlers(repo)
     n_swallow = sum(1 for v in swallow.values() if v)
     entry_call, proc_fn = entry_rule_call(repo, doc_cls, par_attrs)
@@ -424,7 +428,8 @@ def run(rep: Report, repo: Repo, tier: str) -> None:
     rep.floor("C06-R2", 2, "parser escalation facts")
 
     # ---- R4: no swallowing handler in the hand-written package
-    rep.rule("C06-R4", "no except handler for a superclass of a pipeline error type ends without raise")
+    with rep.isolated():
+        rep.rule("C06-R4", "no except handler for a superclass of a pipeline error type ends without raise")
     n_rel = 0
     for mod in HAND_WRITTEN:
         mm = repo.module(mod)
@@ -454,7 +459,8 @@ def run(rep: Report, repo: Repo, tier: str) -> None:
     rep.floor("C06-R4", 1, "relevant except handlers")
 
     # ---- R5: write after success
-    rep.rule("C06-R5", "in document_single_file the file write and the print happen only after Documenter.process() returned")
+    with rep.isolated():
+        rep.rule("C06-R5", "in document_single_file the file write and the print happen only after Documenter.process() returned")
     fn = repo.func("cminx", "document_single_file")
     proc_idx = None
     for i, st in enumerate(fn.body):
@@ -476,8 +482,9 @@ def run(rep: Report, repo: Repo, tier: str) -> None:
     rep.floor("C06-R5", 2, "output sinks in document_single_file")
 
     # ---- R9: every normal completion of process() has parsed the file
-    rep.rule("C06-R9", "Documenter.process reaches its normal return only through the entry-rule parse: no early return, no "
-                       "branch that skips lexing/parsing")
+    with rep.isolated():
+        rep.rule("C06-R9", "Documenter.process reaches its normal return only through the entry-rule parse: no early return, no "
+                           "branch that skips lexing/parsing")
     top_proc = repo.cls(doc_cls).methods["process"]
     parse_stmt_idx = None
     for i, st in enumerate(top_proc.body):
@@ -502,7 +509,8 @@ def run(rep: Report, repo: Repo, tier: str) -> None:
     rep.floor("C06-R9", 2, "parse reachability facts")
 
     # ---- R6: whole file
-    rep.rule("C06-R6", "Documenter.process parses with the entry rule (rule 0, which ends in EOF)")
+    with rep.isolated():
+        rep.rule("C06-R6", "Documenter.process parses with the entry rule (rule 0, which ends in EOF)")
     called = entry_call.func.attr
     rep.check(called == rule_names[0], "C06-R6", f"{dmod}:{doc_cls}.process", norm(entry_call),
               f"the parse starts at rule '{called}', not at the entry rule '{rule_names[0]}' that is anchored by EOF: "
@@ -537,7 +545,8 @@ def run(rep: Report, repo: Repo, tier: str) -> None:
     rep.floor("C06-R6", 3, "entry-rule facts")
 
     # ---- R7: status
-    rep.rule("C06-R7", "every exit call in the package passes a non-zero constant; main is not wrapped in a returning handler")
+    with rep.isolated():
+        rep.rule("C06-R7", "every exit call in the package passes a non-zero constant; main is not wrapped in a returning handler")
     n_exit = 0
     for mod in HAND_WRITTEN:
         for q, f in repo.functions(mod):
@@ -552,7 +561,8 @@ def run(rep: Report, repo: Repo, tier: str) -> None:
 
     # ---- R10: nothing discards an exception in flight
     from . import misc_rules
-    misc_rules.rule_no_finally_discard(rep, repo, "C06-R10")
+    with rep.isolated():
+        misc_rules.rule_no_finally_discard(rep, repo, "C06-R10")
 
 
 def _at_module_level(n, mm) -> bool:
